@@ -122,20 +122,7 @@ def run(repo, res):
     from .. import api_model
     api_model.apply(res, api_model.lint_model(repo), {'fields': 'C11-R2', 'once': 'C11-R2'}, LINTER, lint.lineno)
     loc = repo.module_func(ASSIST, 'location')
-    # the pairing may live in location itself or in a module-level helper it calls
-    pairs = [c for c in ast.walk(repo.tree(ASSIST)) if isinstance(c, ast.Call) and unparse(c.func) == '_loc']
-    ok = bool(pairs)
-    for c in pairs:
-        a, b = unparse(c.args[0]), unparse(c.args[1])
-        ok = ok and a.endswith('.declared_at') and b.endswith('.filename') and a[:-12] == b[:-9]
-    res.check('C11-R2', 'location pairs position with the same object\'s file', ok, ASSIST, loc.lineno,
-              'every go-to-definition result must pair n.declared_at with n.filename of the same n')
-    lf = repo.module_func(ASSIST, '_loc')
-    r = lf.body[-1]
-    ok = isinstance(r, ast.Return) and isinstance(r.value, ast.Dict) and \
-        sorted(unparse(v) for v in r.value.values) == ['filename', 'location']
-    res.check('C11-R2', '_loc copies', ok, ASSIST, lf.lineno, '_loc must return the position and file unmodified',
-              nontrivial=False)
+    api_model.apply(res, api_model.location_model(repo), {'pairs': 'C11-R2', 'marker-shift': 'C11-R2'}, ASSIST, loc.lineno)
     api_model.apply(res, api_model.all_names_model(repo), {'all_names': 'C11-R2'}, SCOPE, 0)
     res.note('import aliases, def and class names obtain their position by text search (find_id_loc): C11 is not '
              'decided for them by this family (e.g. `async def d():` or `from foo import bar as foo` layouts).')
